@@ -35,6 +35,12 @@ var matrix = []base{
 	{"ver=0.10.2.0&rm=1&nm=2&fm=2&ff=100", 3, 3, "v1 batch"},
 	{"rm=1&nm=2&bo=100", 3, 4, "backoff"},
 	{"rm=1&nm=2&mfaults=drop,leader-unavailable", 3, 4, "meta"},
+	// a leader election: partition 0 is leaderless for a while (every metadata answer says so), then led again
+	{"idem=1&rm=2&nm=2&np=1&election=1", 3, 4, "idem election"},
+	{"idem=1&rm=2&nm=3&np=1&election=2&bo=100", 3, 4, "idem election at start"},
+	{"rm=2&nm=3&np=1&election=1&policy=input", 3, 4, "election order"},
+	// ... with fresh input landing in the retry window and a last message after the election is over
+	{"rm=2&nm=3&np=1&election=1&policy=window&lastafter=1", 3, 4, "election window"},
 	{"rm=1&nm=3&np=1&fm=2", 2, 3, "nofreq close"},
 	// a full buffer (Flush.MaxMessages) while a request is in flight: later input waits for space inside the broker worker
 	{"rm=2&nm=5&np=1&fx=2&policy=input", 2, 3, "maxmsgs wait"},
